@@ -158,7 +158,9 @@ func run(c Case) (pbt.Outcome, error) {
 			s, ms = s.SubScope(string(sp.Sub)), ms.Sub(string(sp.Sub))
 		}
 		if sp.Tags != nil {
-			s, ms = s.Tagged(sp.Tags.Std()), ms.Tagged(sp.Tags.Std())
+			tg := sp.Tags.Std()
+			s, ms = s.Tagged(tg), ms.Tagged(sp.Tags.Std())
+			pbt.Spoil(tg) // the caller re-uses its map: the scope's tags must not follow
 		}
 		scopes[i], mscopes[i] = s, ms
 	}
